@@ -122,7 +122,7 @@ def ce_compile(env, kcfg, cases, tag):
     return out, r.stdout
 def ce_engine(env, gen='c08', clause='C08.diff', cid='C08.ce'):
     prop, tier, seed = env['prop'], env['tier'], env['seed']
-    n = 4000 if tier == 'quick' else 40000
+    n = 8000 if tier == 'quick' else 60000
     sos = [env['paths'][k] for k in sorted(env['paths']) if not k.startswith('S-')]
     casefile = os.path.join(env['work'], 'ce_cases.txt')
     r = subprocess.run([env['exe'], 'emit', clause, '--gen', gen, '--seed', str(seed), '--n', str(n * 2), '--out', casefile] + sos, stdout=subprocess.PIPE, stderr=subprocess.PIPE, text=True)
